@@ -1,4 +1,5 @@
 import LyModel.Text.SpecLemmas
+import LyModel.XmlTree.Roundtrip
 /-!
 # C12 — printed XML and JSON mean the same to any parser: property theorems (character-data level)
 
@@ -31,5 +32,26 @@ example : XmlSpec.readAll true [97, 9, 98] = some [97, 32, 98] := by decide
 /-- non-vacuity: CR, TAB, LF, quotes, markup, DEL and multi-byte characters are all `YangText` -/
 example : YangText [13, 9, 10, 34, 39, 38, 60, 62, 93, 93, 62, 127, 0xC3, 0xA9, 0xF0, 0x9F, 0x98, 0x80] :=
   isYangText_sound _ (by decide)
+
+/-- XML, tree level: for EVERY forest of printed nodes (any depth, any number of siblings, any mix of namespaces, names that are
+    XML names, namespace and value strings without forbidden control characters — every `YangText` string; v1: nodes without
+    metadata), the document `xml_print_data` emits in shrink mode is well-formed XML 1.0 with namespaces, and a namespace-aware
+    reader written from the standards recovers exactly the elements in order, each with the namespace of its module and its
+    character data.  The printer model (namespace stack of `xml_print_ns`, `/>` for empty content, escaping through the
+    generated table) is compared byte for byte with libyang's output on every generated tree. -/
+theorem xml_document_faithful (forest : List XmlTree.XNode) (h : XmlTree.ListOk forest) :
+    XmlDoc.parseDoc (XmlTree.printData forest) = some (XmlTree.viewList forest) :=
+  XmlTree.parseDoc_printData forest h
+
+/-- non-vacuity: two modules, nested default-namespace switches back and forth, empty and escaped content -/
+example : XmlTree.ListOk
+    [.inner [117, 49] [99] [] [.term [117, 49] [97] [] [60, 38, 13], .inner [117, 38, 50] [100] [] [.term [117, 49] [101] [] []],
+      .term [117, 49] [102] [] [120]], .term [117, 38, 50] [103] [] [93, 93, 62]] := by
+  simp [XmlTree.ListOk, XmlTree.NodeOk, XmlTree.NameOk, XmlDoc.isNameByte, XmlText.NoCtl]
+/-- what is printed for (part of) it: `<c xmlns="u1"><a>&lt;&amp;&#xD;</a><d xmlns="u&amp;2"><e xmlns="u1"/></d></c>` -/
+example : XmlTree.printData
+    [.inner [117, 49] [99] [] [.term [117, 49] [97] [] [60, 38, 13], .inner [117, 38, 50] [100] [] [.term [117, 49] [101] [] []]]]
+    = [60, 99, 32, 120, 109, 108, 110, 115, 61, 34, 117, 49, 34, 62, 60, 97, 62, 38, 108, 116, 59, 38, 97, 109, 112, 59, 38, 35, 120, 68, 59, 60, 47, 97, 62, 60, 100, 32, 120, 109, 108, 110, 115, 61, 34, 117, 38, 97, 109, 112, 59, 50, 34, 62, 60, 101, 32, 120, 109, 108, 110, 115, 61, 34, 117, 49, 34, 47, 62, 60, 47, 100, 62, 60, 47, 99, 62] := by
+  decide
 
 end LyModel.Props.C12
